@@ -251,12 +251,19 @@ func fetchSpentOutputs(ctx context.Context, store storage.Storage, outputFetcher
 
 // processUnconfirmedTxs pulls txs from the unconfirmed tx channel and processes them.
 func (node *Node) processUnconfirmedTxs(ctx context.Context) {
+	failed := false
 	for tx := range node.unconfTxChannel.Channel {
+		if failed {
+			// Keep emptying the channel until it is closed. A full channel blocks the threads
+			// that add to it while they hold its lock, and closing it needs that lock.
+			continue
+		}
+
 		if err := node.processUnconfirmedTx(ctx, tx); err != nil {
 			logger.Error(ctx, "SpyNodeAborted to process unconfirmed tx : %s : %s", err,
 				tx.Msg.TxHash().String())
 			node.requestStop(ctx)
-			break
+			failed = true
 		}
 	}
 }
